@@ -25,6 +25,9 @@ Workloads:
 2. **static shapes**: ~50 fully generic compositions (no erasure) over seeded entries;
 3. **macro call sites**: fixed `props!` / `evt!` / `emit!` sites mixing plain, renamed, optional and
    cfg'd keys; besides the coherence checks the rendered message must interpolate every hole.
+4. **ambient snapshots** with overridden typed ids (section 2b below).
+5. **handed-on collections** (`../shared/c02_handed.rs`): the adapters emit itself wraps around props
+   while handing them to a wrapped / erased / forwarded-to context, to filters and to emitters.
 */
 
 use std::{
@@ -44,6 +47,10 @@ use emit::{
 };
 use emit_traceparent::TraceparentCtxt;
 use vcommon::*;
+
+/// Section 2c: the collections emit itself hands on to wrapped contexts, filters and emitters.
+#[path = "../shared/c02_handed.rs"]
+mod c02_handed;
 
 // ---------------------------------------------------------------------------
 // model values and entries
@@ -811,6 +818,8 @@ fn check_view<P: Props + ?Sized>(r: &mut Report, cx: &Cx, p: &P, view: &str) -> 
     // 3. lookups
     let probes = probe_keys(cx, &list);
     let ambient = cx.kind.starts_with("ambient-snapshot");
+    // what a context implementation reads from the props it is handed: the typed ids too
+    let typed_pulls = ambient || cx.kind.starts_with("props-handed-to-");
     for (n, k) in probes.iter().enumerate() {
         if ambient {
             KEY_CLASS.with(|c| c.set(if ID_KEYS.contains(&k.as_str()) { "id-key" } else { "ordinary-key" }));
@@ -888,7 +897,7 @@ fn check_view<P: Props + ?Sized>(r: &mut Report, cx: &Cx, p: &P, view: &str) -> 
                     }
                 }
             }
-            if ambient {
+            if typed_pulls {
                 // what span machinery reads from a snapshot
                 r.observe("pulls", 4);
                 let pulled = p.pull::<TraceId, _>(key);
@@ -2369,6 +2378,7 @@ fn main() {
             Some("dynamic") => dynamic_case(&mut r, seed, index),
             Some("static") => static_case(&mut r, seed, index, case.get("shape").and_then(|v| v.as_str())),
             Some("ambient") => ambient_case(&mut r, seed, index),
+            Some("handed") => c02_handed::handed_case(&mut r, seed, index),
             _ => macro_sites(&mut r),
         }
         std::process::exit(r.finish());
@@ -2406,6 +2416,14 @@ fn main() {
     // 2b. ambient snapshots with overridden (typed) ids
     let n_amb = if miri { (3 * args.scale / 100).max(1) } else { args.n(12_000, 400_000) };
     par_cases(&mut r, &args, n_amb, |i, r| ambient_case(r, seed, i));
+
+    // 2c. what emit itself hands on: to a wrapped / erased / forwarded-to context in `open_*`, and to
+    // filters and emitters after `and_props(ctxt)`, over every composition of the workspace's wrappers
+    let n_handed = if miri { (2 * args.scale / 100).max(1) } else { args.n(8_000, 250_000) };
+    par_cases(&mut r, &args, n_handed, |i, r| c02_handed::handed_case(r, seed, i));
+    if !miri && r.observed.get("props-handed-on-by-emit-with-entries").copied().unwrap_or(0) == 0 {
+        r.inconclusive("no non-empty property collection was handed on to the recording context / filter / emitter: the 'handed' section observed nothing");
+    }
 
     // 3. dynamic trees
     let n_dyn = if miri { (5 * args.scale / 100).max(1) } else { args.n(130_000, 5_400_000) };
